@@ -10,6 +10,10 @@ EXTENDS ZLoadS, IOUtils
 
 @GENERATED@
 
+(* Non-ASCII white space used by layout rewrites (str.isspace() is true    *)
+(* for each; stated here, checked against Python by the harness).          *)
+MCExtSpace == {"~u3000;", "~ua0;", "~u2003;"}
+
 TFile == JsonDeserialize(IOEnv.TRACE_FILE)
 Scn   == TFile.scn
 
